@@ -13,6 +13,9 @@ func cancelSpec(r *sim.Rng, lease time.Duration) int64 {
 		return 0 // cancelled before the call
 	case 1, 2, 3:
 		return int64(1 + r.Intn(14)) // after n yields of the canceller
+	case 7:
+		// tied to the next Unlock of anybody: lands exactly at a hand-off
+		return int64(sim.Pick(r, 998, 999))
 	case 4, 5, 6:
 		// time based: lands in a wait
 		return 1000 + int64(sim.Pick(r, time.Microsecond, 50*time.Microsecond, time.Millisecond, 20*time.Millisecond, lease/4, lease))
